@@ -5,7 +5,10 @@
 //! `wbuf <desc> <pattern>`
 //!   desc:  data:<hex> | headers:<hex> | goaway:<id> | cancel:<id> | maxpush:<id> |
 //!          settings:<id>=<v>;… | pp:<id>:<hex> | wtf:<session> | st:<ty> | ctl:<id>=<v>;… |
-//!          enc | dec | wtu:<session> | wtb:<session> | pair:<ty>:<frame desc>
+//!          enc | dec | wtu:<session> | wtb:<session> | pair:<ty>:<frame desc> |
+//!          datac:<hex>|<hex>|… (also as the frame of a pair): `Frame::Data` over a payload `B: Buf` that is NOT
+//!          contiguous - exactly two segments: `bytes::buf::Chain<Bytes, Bytes>`, otherwise `Segs` (a deque of `Bytes`);
+//!          `-` or nothing = an empty segment
 //!   pattern (comma separated, `-` = none): <k> = the transport takes min(k, |chunk|) bytes of
 //!          `chunk()` and calls `advance` with that; a<cnt> = a bare `advance(cnt)`
 //! output: `all=<everything taken, in order> r<remaining> <taken hex>:r<remaining> …
@@ -122,13 +125,279 @@ fn build(desc: &str) -> Result<Box<dyn FnOnce() -> WriteBuf<Bytes>>, Bad> {
     })
 }
 
+/// a payload in segments, some possibly empty: `chunk()` is the first segment that has bytes (so the `Buf` contract holds:
+/// empty only when nothing remains), `advance` walks the segments and panics past the end like `Bytes::advance`
+pub(crate) struct Segs(pub(crate) std::collections::VecDeque<Bytes>);
+
+impl Buf for Segs {
+    fn remaining(&self) -> usize {
+        self.0.iter().map(|b| b.len()).sum()
+    }
+    fn chunk(&self) -> &[u8] {
+        self.0.iter().find(|b| !b.is_empty()).map(|b| &b[..]).unwrap_or(&[])
+    }
+    fn advance(&mut self, mut cnt: usize) {
+        while cnt > 0 {
+            let front = self.0.front_mut().expect("advance past the end");
+            if cnt <= front.len() {
+                front.advance(cnt);
+                return;
+            }
+            cnt -= front.len();
+            self.0.pop_front();
+        }
+    }
+}
+
+fn parse_segs(s: &str) -> Option<Vec<Bytes>> {
+    s.split('|').map(|h| if h.is_empty() { Some(Bytes::new()) } else { parse_hex(h).map(Bytes::from) }).collect()
+}
+
+/// `datac:…` / `pair:<ty>:datac:…` => (stream type of the pair, segments)
+fn chunked(desc: &str) -> Option<Result<(Option<u64>, Vec<Bytes>), ()>> {
+    if let Some(a) = desc.strip_prefix("datac:") {
+        return Some(parse_segs(a).map(|s| (None, s)).ok_or(()));
+    }
+    let rest = desc.strip_prefix("pair:")?;
+    let (ty, fd) = rest.split_once(':')?;
+    let a = fd.strip_prefix("datac:")?;
+    Some(match (ty.parse::<u64>(), parse_segs(a)) {
+        (Ok(v), Some(s)) => Ok((Some(v), s)),
+        _ => Err(()),
+    })
+}
+
+fn build_c<B: Buf>(ty: Option<u64>, payload: B) -> WriteBuf<B> {
+    match ty {
+        None => WriteBuf::from(Frame::Data(payload)),
+        Some(v) => WriteBuf::from((StreamType::from_value(v), Frame::Data(payload))),
+    }
+}
+
+fn run_pat<B: Buf>(mut b: WriteBuf<B>, ps: Vec<Pat>) -> String {
+    let mut out = vec![format!("r{}", b.remaining())];
+    let mut all = Vec::new();
+    for p in ps {
+        match p {
+            Pat::Take(k) => {
+                let c = b.chunk();
+                let n = k.min(c.len());
+                all.extend_from_slice(&c[..n]);
+                let taken = to_hex(&c[..n]);
+                b.advance(n);
+                out.push(format!("{}:r{}", taken, b.remaining()));
+            }
+            Pat::Adv(n) => {
+                b.advance(n);
+                out.push(format!("a:r{}", b.remaining()));
+            }
+        }
+    }
+    let mut rest = Vec::new();
+    loop {
+        let c = b.chunk();
+        if c.is_empty() {
+            break;
+        }
+        let n = c.len();
+        rest.extend_from_slice(c);
+        b.advance(n);
+    }
+    out.push(format!("left={}", to_hex(&rest)));
+    all.extend_from_slice(&rest);
+    format!("all={} {}", to_hex(&all), out.join(" "))
+}
+
 enum Pat {
     Take(usize),
     Adv(usize),
 }
 
+
+// ---------------------------------------------------------------- engine `sdc`: a real connection typed with a segmented payload
+//
+// `sdc <role> <wc> <grants k,k,…|-> [#fs:<hex>] [#rq:<hex>] <payload> …`   payload = `<hex>|<hex>|…` (segments, `-` = empty)
+// A real `h3::client` / `h3::server` connection with `B = Segs` over the payload-generic transport `c14_sim.rs`, grease off.  Client:
+// `send_request(GET https://a/)`, one `send_data(Segs)` per payload, `finish()`.  Server: the peer's request (`#rq:` = its HEADERS
+// frame), `accept`, `resolve_request`, `send_response(200)`, the same.  The request stream starts with `wc` bytes of write credit;
+// whenever a call is pending the next grant is added; when the grants are used up the call stays pending and nothing else is called.
+// Output: `0:tx=<hex>[,fin] calls=<ok|pending|err>,…` (`#fs:` is for the Lean side: the field section of the HEADERS frame h3 writes).
+use crate::c14_sim::{Net as CNet, NetRef as CNetRef, Rx as CRx, SimConn as CSimConn};
+use std::collections::VecDeque;
+use std::future::Future;
+use std::pin::Pin;
+use std::task::{Context, Poll};
+
+fn drive_c<F: Future + ?Sized>(f: &mut Pin<Box<F>>, net: &CNetRef, grants: &mut VecDeque<usize>) -> Option<F::Output> {
+    let w = futures_util::task::noop_waker();
+    let mut cx = Context::from_waker(&w);
+    loop {
+        for _ in 0..4 {
+            if let Poll::Ready(r) = f.as_mut().poll(&mut cx) {
+                return Some(r);
+            }
+        }
+        let k = grants.pop_front()?;
+        if let Some(s) = net.borrow().streams.get(&0) {
+            let mut s = s.borrow_mut();
+            s.tx_credit = s.tx_credit.saturating_add(k);
+        }
+    }
+}
+
+fn sdc_calls<S>(st: &mut S, payloads: Vec<Vec<Bytes>>, net: &CNetRef, grants: &mut VecDeque<usize>, calls: &mut Vec<&'static str>)
+where
+    S: SdcStream,
+{
+    for p in payloads {
+        let mut f = st.sd(Segs(p.into_iter().collect()));
+        match drive_c(&mut f, net, grants) {
+            Some(true) => calls.push("ok"),
+            Some(false) => {
+                calls.push("err");
+                return;
+            }
+            None => {
+                calls.push("pending");
+                return;
+            }
+        }
+    }
+    let mut f = st.fi();
+    match drive_c(&mut f, net, grants) {
+        Some(true) => calls.push("ok"),
+        Some(false) => calls.push("err"),
+        None => calls.push("pending"),
+    }
+}
+
+trait SdcStream {
+    fn sd<'a>(&'a mut self, b: Segs) -> Pin<Box<dyn Future<Output = bool> + 'a>>;
+    fn fi<'a>(&'a mut self) -> Pin<Box<dyn Future<Output = bool> + 'a>>;
+}
+impl SdcStream for h3::client::RequestStream<crate::c14_sim::SimStream, Segs> {
+    fn sd<'a>(&'a mut self, b: Segs) -> Pin<Box<dyn Future<Output = bool> + 'a>> {
+        Box::pin(async move { self.send_data(b).await.is_ok() })
+    }
+    fn fi<'a>(&'a mut self) -> Pin<Box<dyn Future<Output = bool> + 'a>> {
+        Box::pin(async move { self.finish().await.is_ok() })
+    }
+}
+impl SdcStream for h3::server::RequestStream<crate::c14_sim::SimStream, Segs> {
+    fn sd<'a>(&'a mut self, b: Segs) -> Pin<Box<dyn Future<Output = bool> + 'a>> {
+        Box::pin(async move { self.send_data(b).await.is_ok() })
+    }
+    fn fi<'a>(&'a mut self) -> Pin<Box<dyn Future<Output = bool> + 'a>> {
+        Box::pin(async move { self.finish().await.is_ok() })
+    }
+}
+
+fn sdc_summary(net: &CNetRef, calls: &[&'static str]) -> String {
+    let n = net.borrow();
+    let (tx, fin) = match n.streams.get(&0) {
+        Some(s) => (s.borrow().tx.clone(), s.borrow().tx_fin),
+        None => (Vec::new(), false),
+    };
+    format!("0:tx={}{} calls={}", to_hex(&tx), if fin { ",fin" } else { "" }, calls.join(","))
+}
+
+fn sdc(role: &str, wc: usize, grants: Vec<usize>, rq: Option<Vec<u8>>, payloads: Vec<Vec<Bytes>>) -> String {
+    let mut grants: VecDeque<usize> = grants.into();
+    let mut none: VecDeque<usize> = VecDeque::new();
+    let mut calls: Vec<&'static str> = Vec::new();
+    if role == "client" {
+        let net = CNet::new(false);
+        let mut builder = h3::client::builder();
+        builder.send_grease(false);
+        let mut f: Pin<Box<dyn Future<Output = _>>> = Box::pin(builder.build::<_, _, Segs>(CSimConn { net: net.clone() }));
+        let Some(Ok((_conn, mut send))) = drive_c(&mut f, &net, &mut none) else { return "client-build-failed".into() };
+        drop(f);
+        net.borrow_mut().default_tx_credit = wc;
+        let req = http::Request::builder().method("GET").uri("https://a/").body(()).expect("request");
+        let mut st = {
+            let mut f = Box::pin(send.send_request(req));
+            match drive_c(&mut f, &net, &mut grants) {
+                Some(Ok(s)) => s,
+                Some(Err(_)) => return sdc_summary(&net, &["err"]),
+                None => return sdc_summary(&net, &["pending"]),
+            }
+        };
+        calls.push("ok");
+        sdc_calls(&mut st, payloads, &net, &mut grants, &mut calls);
+        sdc_summary(&net, &calls)
+    } else {
+        let Some(rq) = rq else { return "bad-op".into() };
+        let net = CNet::new(true);
+        let mut builder = h3::server::builder();
+        builder.send_grease(false);
+        let mut f: Pin<Box<dyn Future<Output = _>>> = Box::pin(builder.build::<_, Segs>(CSimConn { net: net.clone() }));
+        let Some(Ok(mut conn)) = drive_c(&mut f, &net, &mut none) else { return "server-build-failed".into() };
+        drop(f);
+        {
+            let mut n = net.borrow_mut();
+            n.default_tx_credit = wc;
+            n.peer_open(0);
+            n.peer_send(0, CRx::Chunk(Bytes::from(rq)));
+            n.peer_send(0, CRx::Fin);
+        }
+        let resolver = {
+            let mut f = Box::pin(conn.accept());
+            match drive_c(&mut f, &net, &mut none) {
+                Some(Ok(Some(r))) => r,
+                _ => return "accept-failed".into(),
+            }
+        };
+        let mut st = {
+            let mut f = Box::pin(resolver.resolve_request());
+            match drive_c(&mut f, &net, &mut none) {
+                Some(Ok((_req, st))) => st,
+                _ => return "resolve-failed".into(),
+            }
+        };
+        {
+            let resp = http::Response::builder().status(200).body(()).expect("response");
+            let mut f = Box::pin(st.send_response(resp));
+            match drive_c(&mut f, &net, &mut grants) {
+                Some(Ok(())) => calls.push("ok"),
+                Some(Err(_)) => return sdc_summary(&net, &["err"]),
+                None => return sdc_summary(&net, &["pending"]),
+            }
+        }
+        sdc_calls(&mut st, payloads, &net, &mut grants, &mut calls);
+        sdc_summary(&net, &calls)
+    }
+}
+
 pub fn handle(w: &[&str]) -> String {
     match w {
+        ["sdc", role @ ("client" | "server"), wc, grants, rest @ ..] => {
+            let Ok(wc) = wc.parse::<usize>() else { return "bad-op".into() };
+            let mut gs = Vec::new();
+            if *grants != "-" {
+                for g in grants.split(',') {
+                    match g.parse::<usize>() {
+                        Ok(k) => gs.push(k),
+                        Err(_) => return "bad-op".into(),
+                    }
+                }
+            }
+            let mut rq = None;
+            let mut payloads = Vec::new();
+            for t in rest {
+                if let Some(h) = t.strip_prefix("#rq:") {
+                    rq = parse_hex(h);
+                } else if t.starts_with('#') {
+                    continue;
+                } else {
+                    match parse_segs(t) {
+                        Some(p) => payloads.push(p),
+                        None => return "bad-op".into(),
+                    }
+                }
+            }
+            let role = role.to_string();
+            guarded(move || sdc(&role, wc, gs, rq, payloads))
+        }
         ["wbuf", desc, pat] => {
             let mut ps = Vec::new();
             if *pat != "-" {
@@ -140,46 +409,28 @@ pub fn handle(w: &[&str]) -> String {
                     }
                 }
             }
+            match chunked(desc) {
+                Some(Err(())) => return "bad-op".into(),
+                Some(Ok((ty, mut segs))) => {
+                    return guarded(move || {
+                        if segs.len() == 2 {
+                            let b = segs.pop().unwrap();
+                            let a = segs.pop().unwrap();
+                            run_pat(build_c(ty, a.chain(b)), ps)
+                        } else {
+                            run_pat(build_c(ty, Segs(segs.into_iter().collect())), ps)
+                        }
+                    });
+                }
+                None => {}
+            }
             let mk = match build(desc) {
                 Ok(mk) => mk,
                 Err(Bad::Op) => return "bad-op".into(),
                 Err(Bad::Id) => return "bad-id".into(),
                 Err(Bad::Settings) => return "bad-settings".into(),
             };
-            guarded(move || {
-                let mut b = mk();
-                let mut out = vec![format!("r{}", b.remaining())];
-                let mut all = Vec::new();
-                for p in ps {
-                    match p {
-                        Pat::Take(k) => {
-                            let c = b.chunk();
-                            let n = k.min(c.len());
-                            all.extend_from_slice(&c[..n]);
-                            let taken = to_hex(&c[..n]);
-                            b.advance(n);
-                            out.push(format!("{}:r{}", taken, b.remaining()));
-                        }
-                        Pat::Adv(n) => {
-                            b.advance(n);
-                            out.push(format!("a:r{}", b.remaining()));
-                        }
-                    }
-                }
-                let mut rest = Vec::new();
-                loop {
-                    let c = b.chunk();
-                    if c.is_empty() {
-                        break;
-                    }
-                    let n = c.len();
-                    rest.extend_from_slice(c);
-                    b.advance(n);
-                }
-                out.push(format!("left={}", to_hex(&rest)));
-                all.extend_from_slice(&rest);
-                format!("all={} {}", to_hex(&all), out.join(" "))
-            })
+            guarded(move || run_pat(mk(), ps))
         }
         _ => "bad-op".into(),
     }
